@@ -15,6 +15,9 @@ CLAIMED = {
     "C09": ("Lean 4 theorems: encode then independently parse = intended segments, for all logical values < 2^32 and types, port/link forms, symbols, request paths, and rendered tag strings of any depth with 0-3 indices and symbol-instance addressing + differential correspondence and an independent Python EPATH parser as oracle",
             "every emitted path class proved to be a well-formed padded EPATH that a strict parser written from the CIP specification decodes to the intent; string-level tag parsing included",
             "DESIGN.md §7 C09"),
+    "C14": ("Lean 4 theorems: target-side parsers applied to the client's builders return the arguments (service, path, data for all ids < 2^32 and all lengths; Unconnected Send wrapper with embedded length, pad and route), wall-clock round trip for all 64-bit times, reply data extraction + transcript correspondence of the real driver and the Lean client on the Lean target, with the target's message-router log as oracle",
+            "delivery proved at the message level for all arguments; the composition through generic_message (route selection, Tag construction) is tied by transcript equality on generated scenarios (partial end-to-end)",
+            "DESIGN.md §7 C14"),
     "C07": ("Lean 4 theorems: closed forms of encode/decode (wire layout) + decide +kernel over the regenerated type-code table; differential correspondence model vs pycomm3 vs an independent reference codec (exhaustive for 1-2 byte types)",
             "kernel-checked closed forms of the codec model for every width/value (little-endian two's complement, BOOL 00/FF, LSB-first bit strings, string prefixes, padded fixed strings, concatenated arrays, every byte pattern decoded), tied to the code by regenerated tables and differential execution",
             "DESIGN.md §7 C07"),
